@@ -182,6 +182,12 @@ def jobs(tier):
     return out
 
 
+
+# heavy shards are split into disjoint parts of their path tree (run in parallel; together exactly the unsplit exploration)
+def slices(job, tier):
+    h, a = job
+    return 4 if h == 'sort' and len(a) > 3 and a[3] else 1
+
 OPTS = {'quick': {'time_budget': 70}, 'thorough': {'time_budget': 1500}}
 
 META = {
